@@ -54,6 +54,28 @@ theorem failure_does_not_stop (env : Env) (e : Expr) (es : List Expr) (x : Err) 
   · simp [evaluateValue, evalRules, h]
   · simpa using outcomes_length env (e :: es)
 
+/-- the k-th outcome is the k-th rule's own result, for every position -/
+theorem outcome_at (env : Env) (hd : Deterministic env) (rules : List Expr) (k : Nat) :
+    (evaluateValue env rules).1[k]? = (rules[k]?).map (denote env) := by
+  rw [outcome_standalone env hd]; simp
+
+/-- evaluating two groups of rules in one ruleset gives the outcomes of the first group followed by those of the
+    second: nothing of one group leaks into the other -/
+theorem outcomes_append (env : Env) (hd : Deterministic env) (rs1 rs2 : List Expr) :
+    (evaluateValue env (rs1 ++ rs2)).1 = (evaluateValue env rs1).1 ++ (evaluateValue env rs2).1 := by
+  simp [outcome_standalone env hd]
+
+/-- reordering the rules reorders the outcomes in the same way and changes none of them -/
+theorem outcomes_reorder (env : Env) (hd : Deterministic env) (rules rules' : List Expr) (h : rules.Perm rules') :
+    (evaluateValue env rules).1.Perm (evaluateValue env rules').1 := by
+  rw [outcome_standalone env hd, outcome_standalone env hd]; exact h.map _
+
+/-- the same expression added twice yields the same outcome twice, wherever the two copies stand -/
+theorem same_rule_same_outcome (env : Env) (hd : Deterministic env) (rules : List Expr) (i j : Nat) (e : Expr)
+    (hi : rules[i]? = some e) (hj : rules[j]? = some e) :
+    (evaluateValue env rules).1[i]? = (evaluateValue env rules).1[j]? := by
+  rw [outcome_at env hd, outcome_at env hd, hi, hj]
+
 /-! non-vacuity -/
 example :
     (evaluateValue ⟨.map [(['x'], .int 5)], [], [], Oracle.empty⟩
